@@ -244,6 +244,32 @@ def run(ctx):
                 if not num_same(got, want):
                     ctx.violation(case, "operand is not treated as the number it stands for", impl=got,
                                   expected=want)
+        # ^ against the real power function (seeded change C02-pow-zero-base-fractional: the guard "negative base,
+        # fractional exponent -> #NUM!" widened to a zero base): a negative base with a non-integral exponent is #NUM!,
+        # 0 to a negative power #DIV/0!, every other pair a NUMBER equal to pow(l, r); 0^0 is left out (pycel: 1,
+        # Excel: #NUM!)
+        if nl is not None and nr is not None and pow_ok(nl, nr) and not (nl == 0 and nr == 0):
+            import math
+            import fractions
+            case = dict(call='fixup', args=[l, 'Pow', r], oracle='pow-value')
+            got = f(l, 'Pow', r)
+            ctx.count(('pow-value', repr(l), repr(r)), kind='oracle-pow-value')
+            if nl < 0 and nr != int(nr):
+                if got != ('ok', '#NUM!'):
+                    ctx.violation(case, "negative base to a fractional power is not #NUM!", impl=got, expected='#NUM!')
+            elif nl == 0 and nr < 0:
+                if got != ('ok', '#DIV/0!'):
+                    ctx.violation(case, "0 to a negative power is not #DIV/0!", impl=got, expected='#DIV/0!')
+            else:
+                want = math.pow(nl, nr)
+                num = got[1] if got[0] == 'ok' else None
+                if isinstance(num, tuple) and len(num) == 2 and num[0] == 'float':
+                    num = num[1]                       # run_impl: a float is ('float', Fraction)
+                ok = isinstance(num, (int, float, fractions.Fraction)) and not isinstance(num, bool) and \
+                    abs(float(num) - want) <= 1e-12 * abs(want)
+                if not ok:
+                    ctx.violation(case, "x ^ y is not the power of the numbers the operands stand for", impl=got,
+                                  expected=want)
         case = dict(call='fixup', args=[l, 'BitAnd', r])
         got = f(l, 'BitAnd', r)
         want = ('ok', render(l) + render(r))
